@@ -221,12 +221,21 @@ func WorkerMain(t *testing.T) {
 	found := map[string]*FoundViolation{}
 	sigs := map[string]bool{}
 	var hit, parked []bool
-	for run := 0; run < maxRuns; run++ {
+	run0 := envInt("VERIF_RUN0", 0)
+	for run := run0; run < run0+maxRuns; run++ {
 		if time.Since(start) > time.Duration(budgetMs)*time.Millisecond {
 			break
 		}
 		rs := SeedFor(seed, name, worker, run)
 		o := runOne(t, p, rs, nil)
+		if dd := os.Getenv("VERIF_DUMP_DIR"); dd != "" && lastResult != nil {
+			f, _ := os.Create(filepath.Join(dd, fmt.Sprintf("run%d.txt", run)))
+			for _, e := range lastResult.H.Evs {
+				b, _ := json.Marshal(e)
+				fmt.Fprintln(f, string(b))
+			}
+			f.Close()
+		}
 		if dl := os.Getenv("VERIF_DIGEST_LOG"); dl != "" {
 			f, _ := os.OpenFile(dl, os.O_APPEND|os.O_CREATE|os.O_WRONLY, 0644)
 			fmt.Fprintf(f, "%s\n", o.Digest)
